@@ -45,10 +45,74 @@ class Watched:
         return object.__getattribute__(self, name)
 
 
+# HOW the data code raises its private exception (the object the caller must get is always
+# the Boom instance itself).  Real data code rarely raises a bare new exception: it translates
+# low-level errors (``raise Private() from e``), raises while handling another error, or
+# re-raises an exception object it kept.  The low-level errors include the classes that are
+# documented lookup signals when raised THEMSELVES (here they are only cause / context).
+RAISE_SHAPES = (
+    "plain",                             # raise Boom()
+    "explicit-cause:raised",             # except Low as e: raise boom from e
+    "explicit-cause:raised-chain-of-2",  # low -> mid (from low) -> boom from mid
+    "explicit-cause:never-raised",       # raise boom from Low()   (cause has no traceback)
+    "implicit-context",                  # except Low: raise boom
+    "context-suppressed",                # except Low: raise boom from None
+    "reraised-kept-object",              # boom was raised + caught before (has a traceback)
+)
+_LOW = (KeyError, AttributeError, TypeError, ValueError, OSError, IndexError, RuntimeError)
+
+
+class Mid(Exception):
+    """Intermediate private exception of a 2-link cause chain."""
+
+
+def _raise_low(i):
+    raise _LOW[i % len(_LOW)]("low-level error %d" % i)
+
+
+def raise_shaped(boom, shape, i=0):
+    """Raise ``boom`` the way ``shape`` says; i picks the low-level error class."""
+    if shape == "plain":
+        raise boom
+    if shape == "explicit-cause:raised":
+        try:
+            _raise_low(i)
+        except Exception as e:
+            raise boom from e
+    if shape == "explicit-cause:raised-chain-of-2":
+        try:
+            try:
+                _raise_low(i)
+            except Exception as e:
+                raise Mid("translated") from e
+        except Mid as m:
+            raise boom from m
+    if shape == "explicit-cause:never-raised":
+        raise boom from _LOW[i % len(_LOW)]("never raised")
+    if shape == "implicit-context":
+        try:
+            _raise_low(i)
+        except Exception:
+            raise boom
+    if shape == "context-suppressed":
+        try:
+            _raise_low(i)
+        except Exception:
+            raise boom from None
+    if shape == "reraised-kept-object":
+        try:
+            raise boom
+        except Boom:
+            pass
+        raise boom
+    raise AssertionError(shape)
+
+
 class Events:
-    def __init__(self, fault_at=None):
+    def __init__(self, fault_at=None, shape="plain"):
         self.n = 0
         self.fault_at = fault_at
+        self.shape = shape
         self.boom = Boom("injected") if fault_at is not None else None
         self.fired = False
         self.fired_kind = None
@@ -74,7 +138,7 @@ class Events:
             self.fired_cap = cap
             self.fired_label = self.label
             self.fired_zone = self.zone
-            raise self.boom
+            raise_shaped(self.boom, self.shape, self.n)
 
 
 class EvProxy:
